@@ -749,19 +749,33 @@ def replay(inp):
 
 MANIFEST_ENTRY = {
     'technique': 'Lean 4 proof (finite Fourier sums over an abstract character; translator-generated leg arithmetic of '
-                 'to_fpm_and_back) + metamorphic pairs on the real code, each member also compared with the Lean model',
+                 'to_fpm_and_back by symbolic execution of both mask branches) + metamorphic pairs on the real code, each member '
+                 'also compared with the Lean model',
     'text': ('PROVED for all inputs (any field, any character e, every shape/parity): the fixed-sampling model is linear; embedding the '
-             'field in a larger zero array with the origin on the origin leaves every output sample unchanged (the per-axis kernel '
-             'constant 1/(n_a Q_a) = dx*dx_out/(lambda z) does not depend on the sample count); transposing the input and swapping '
-             'the per-axis arguments transposes the output (also at executor level with per-axis Q); the mask-and-return path is '
-             'additive in the mask (Babinet: mask + complement = unmasked) and linear in the field; an all-pass mask on a '
-             'band-complete M x M grid (M fpm_dx dx = lambda f, M >= both pupil sides) returns the field exactly for EVERY mask shift, '
-             'from root-of-unity orthogonality, which is itself proved from the character law when the kernel of e is Z. '
-             'TRANSLATED from the current source each run: to_fpm_and_back with both legs inlined by symbolic execution — per-axis Q '
-             'of each leg, the shift each leg finally hands to its transform (theorem: both equal shift/fpm_dx), the requested '
-             'shapes, the mask entering as a plain product; wiring of Wavefront.to_fpm_and_back and babinet. '
-             'MODELLED AND COMPARED: the real focus/unfocus_fixed_sampling, mdft/czt executors (incl. per-axis Q) and '
-             'to_fpm_and_back against the Lean model on random fields; the five metamorphic relations evaluated on the real code.'),
+             'field in a larger zero array with the origin on the origin leaves every output sample unchanged, and over the GENERATED '
+             'per-axis Q of both free functions the kernel constant 1/(n_a Q_a) does not depend on the sample count; transposing the '
+             'input and swapping the per-axis arguments transposes the output (also at executor level with per-axis Q); a separable '
+             'field transforms to the product of the per-axis transforms; the mask-and-return path is additive and C-homogeneous in '
+             'the mask (Babinet: mask + complement = unmasked) and linear in the field; an all-pass mask on a band-complete M x M '
+             'grid (M fpm_dx dx = lambda f, M >= both pupil sides) returns the field exactly for EVERY mask shift, from '
+             'root-of-unity orthogonality, itself proved from the character law when the kernel of e is Z (instantiated with '
+             'exp(-2 pi i t)); the model toFpmAndBack these theorems speak about equals the mask-and-return sum fed with the '
+             'GENERATED constants of both legs, and the arrays the Lean driver prints are these models. These are statements about '
+             'the transform model; that method=czt and method=mdft both compute it is C03.ffs_czt_engine_eq_model / C01. '
+             'TRANSLATED from the current source each run (9 items): to_fpm_and_back with both legs inlined by symbolic execution, '
+             'for an array mask and for a Wavefront mask (identical leg arguments required) — per-axis Q of each leg, the shift each '
+             'leg finally hands to its transform (theorem: both equal shift/fpm_dx), the requested shapes; Q/shift glue of '
+             'focus/unfocus_fixed_sampling. RECOGNISERS (Bool facts): mask enters as a plain product and that product travels back, '
+             'order of the return_more tuple, wiring of Wavefront.to_fpm_and_back and the dx/space it labels each returned plane '
+             'with, babinet = field - return(1 - fpm). '
+             'MODELLED AND COMPARED: focus/unfocus_fixed_sampling, the mdft/czt executors (incl. per-axis Q) and to_fpm_and_back '
+             'against the Lean model, on fields and masks of dtype complex/float/int/bool in C, Fortran, transposed and strided layout, '
+             'every documented argument spelling, with a purity guard on every call; metamorphic relations on the real code: '
+             'linearity (mixed dtypes), pad embedding, transpose, both methods agree as complex arrays under any shift, executor-level '
+             'transpose/pad/separability, all-pass (array or Wavefront mask with or without fpm_dx, function and Wavefront method, '
+             'returned container checked), Babinet additivity/complement/homogeneity, field-linearity/pad/transpose/method agreement '
+             'of to_fpm_and_back itself, return_more planes (values, order, dx, space) of to_fpm_and_back, its Wavefront method and '
+             'babinet, Lyot stop as array or Wavefront.'),
     'note': ('Trusted: Lean kernel + standard axioms; ast->Lean translator (validated by execution); numpy/scipy; float64 rounding '
              '(tolerance 1e-9, observed 1e-14). Not covered: *_backprop functions (C06), float32 mode, other backends.'),
 }
